@@ -2,11 +2,37 @@
 C07 bounded tier.  On every run that completes: two output fragments are directly adjacent (no gap row) only if the
 same two contig ends were directly adjacent in the input, and no output scaffold begins or ends with a gap.  For
 PretextView-model maps in addition: every gap row is the input gap between the same two neighbouring contig ends
-(same length and type) or the join gap (200, scaffold), exactly one gap row per junction, and a junction of contigs
-that were not input neighbours carries the join gap.
+(same length and type) or the join gap (200, scaffold), and a junction of contigs that were not input neighbours
+carries the join gap.
+
+What "the input gap that separates the same two neighbouring contigs" means when the input has SEVERAL gap rows in a
+row between two contigs (legal in AGP and TPF, e.g. a 200 bp scaffold gap followed by a contig gap; the code loops
+over several terminal gap rows on purpose):  the input gap of that junction is the whole run of gap rows.  The gap
+rows found between two output fragments are judged together, as one separation, and must be
+
+    either  all the gap rows the input has between the same two contig ends - every one of them, each with its
+            length and type, nothing added (compared as a multiset: the statement does not speak about their order,
+            so a reversed run is accepted in either traversal direction),
+    or      exactly one join gap row (200, scaffold).
+
+Hence a part of the run (one of two input gap rows), the run plus a join gap, or two join gaps are failures: in each
+of them some gap row is neither "the input gap" of these neighbours (the separation is not the one the input had,
+the property's title says retained neighbours KEEP their input gap) nor "the join gap" (one configured row).  With
+one gap row per input junction this is the earlier reading "exactly one gap row per junction".  Two contigs with a
+gap row of any length between them (also length 0) are not "directly adjacent" in the input.  Gap rows in front of
+the first or behind the last contig of an INPUT scaffold separate no two contigs: they may not appear in any output.
+
+Besides the shared PretextView-model stream of pipeline_gen the module has its own input families (`gap_run_*`
+below): runs of 2-3 consecutive gap rows between contigs, runs of 1-2 gap rows in front of the first / behind the
+last contig, gap rows of 0, 1 and 2 bases, next to abutting contigs and single gaps; with maps whose breaks fall on
+every row boundary of the scaffold, one texel before and after it (at 1 bp per texel: one base), and inside every
+longer gap row, i.e. before, inside and after each gap row of a run; scaffolds that are absent from the map.
 """
 
+import itertools
+import math
 import random
+from fractions import Fraction
 
 from . import pipeline_gen as pg
 from .common import Collector
@@ -64,16 +90,18 @@ def gap_problems(case, out, gap_rule):
                 if not gap_rule:
                     continue
                 between = [tuple(g) for g in between]
-                if len(between) > 1:
-                    problems.append(f"{where}: {len(between)} gap rows between {desc}")
+                if between == [JOIN]:
                     continue
-                g = between[0]
+                got = [g[1:] for g in between]
                 if jn in adj:
-                    allowed = [JOIN] + (adj[jn] if len(adj[jn]) == 1 else [])
-                    if g not in allowed:
-                        problems.append(f"{where}: gap {g[1:]} between input neighbours {desc}; input has {[x[1:] for x in adj[jn]]}")
-                elif g != JOIN:
-                    problems.append(f"{where}: gap {g[1:]} between {desc}, which were not neighbours in the input (join gap required)")
+                    # the junction's input gap = the whole run of gap rows the input has between these two ends
+                    if not adj[jn] or sorted(between) != sorted(adj[jn]):
+                        problems.append(
+                            f"{where}: gap rows {got} between input neighbours {desc} are neither their input gap "
+                            f"{[x[1:] for x in adj[jn]]} (all of its rows, nothing else) nor one join gap {JOIN[1:]}"
+                        )
+                else:
+                    problems.append(f"{where}: gap rows {got} between {desc}, which were not neighbours in the input (one join gap {JOIN[1:]} required)")
     return problems, n_junctions
 
 
@@ -94,6 +122,174 @@ def replay(inp):
     return col.failures[0]["message"] if col.failures else None
 
 
+# --------------------------------------------------------------------------------------------------
+# input families with runs of gap rows (consecutive gap rows between contigs, in front of the first and behind the
+# last contig, 0/1/2-base gaps) and maps that break on, next to and inside every row of such a run
+# --------------------------------------------------------------------------------------------------
+
+S1, S3, S200 = (1, "scaffold"), (3, "scaffold"), (200, "scaffold")
+C0, C1, C2, C10, C25 = (0, "contig"), (1, "contig"), (2, "contig"), (10, "contig"), (25, "contig")
+GAP_KINDS = (C1, S3, C10, S200, C0, S1, C2, C25)
+
+
+def gap_run_scaffold(name, lens, strands=None, runs=None, lead=(), trail=(), naming="own", tag="1"):
+    """
+    like pipeline_gen.make_scaffold, but runs[j] is the TUPLE of gap rows between contig j and contig j + 1 (() = the
+    contigs abut) and lead / trail are tuples of gap rows in front of the first / behind the last contig
+    """
+    k = len(lens)
+    strands = strands or [1] * k
+    runs = runs or [()] * (k - 1)
+    rows = [pg.G(*g) for g in lead]
+    pos = sum(g[0] for g in lead)
+    for j, ln in enumerate(lens):
+        if j:
+            for g in runs[j - 1]:
+                rows.append(pg.G(*g))
+                pos += g[0]
+        if naming == "fasta":
+            rows.append(pg.F(name, pos + 1, pos + ln, strands[j]))
+        elif naming == "own":
+            rows.append(pg.F(f"ctg{tag}{chr(97 + j)}", 1, ln, strands[j]))
+        else:
+            base = 6000 + 3000 * (j % 2)
+            rows.append(pg.F(f"old{tag}{j // 2}", base + 1, base + ln, strands[j]))
+        pos += ln
+    rows.extend(pg.G(*g) for g in trail)
+    return {"name": name, "rows": rows}
+
+
+def boundary_marks(rows, bpt, n):
+    """
+    texel boundaries on every row boundary p of the scaffold (the last boundary at or before p and the first at or
+    after it), one texel before and after those, and in the middle of every gap row of >= 4 bases.  At 1 bp per texel
+    these are the breaks after base p - 1, p and p + 1.
+    """
+    f = pg.bptF(bpt)
+    marks = set()
+    pos = 0
+    for r in rows:
+        ln = pg.row_len(r)
+        for p in (pos, pos + ln):
+            q = Fraction(p) / f
+            lo, hi = math.floor(q), math.ceil(q)
+            marks.update((lo - 1, lo, hi, hi + 1))
+        if r[0] == "G" and ln >= 4:
+            marks.add(math.floor(Fraction(pos + ln // 2) / f))
+        pos += ln
+    return sorted(t for t in marks if 2 <= t <= n - 2)
+
+
+def gap_run_cases(inputs, bpts_for, rng, max_cuts, k2_sample, k3_sample, painted_p=0.5):
+    """
+    For every input (list of scaffolds; the FIRST is in the map, the others are absent from it), texel size in
+    bpts_for(input number) and rounding: EVERY set of <= max_cuts breaks from boundary_marks() that leaves pieces of
+    >= 2 texels; one piece: both orientations; two pieces: `k2_sample` seeded ones of the 16 permutation x orientation
+    x grouping arrangements (None = all); three pieces: `k3_sample` seeded ones of the 192; Painted seeded per
+    Pretext scaffold.
+    """
+    i = 0
+    for ii, inp in enumerate(inputs):
+        sc = inp[0]
+        ln = pg.rows_len(sc["rows"])
+        for bpt in bpts_for(ii):
+            seen_n = set()
+            for rounding in ("floor", "ceil"):
+                n = pg.texels(ln, bpt, rounding)
+                if n < 1 or n in seen_n:
+                    continue
+                seen_n.add(n)
+                marks = boundary_marks(sc["rows"], bpt, n)
+                for c in range(max_cuts + 1):
+                    for cs in itertools.combinations(marks, c):
+                        if any(y - x < 2 for x, y in itertools.pairwise((0, *cs, n))):
+                            continue
+                        pcs = pg.pieces_of(sc, bpt, rounding, cs)
+                        k = len(pcs)
+                        arrs = pg.ALL_ARRANGEMENTS[k]
+                        if k == 2 and k2_sample:
+                            arrs = rng.sample(arrs, k2_sample)
+                        elif k == 3:
+                            arrs = rng.sample(arrs, k3_sample)
+                        for arr in arrs:
+                            i += 1
+                            painted = [rng.random() < painted_p for _ in arr[2]]
+                            mp = {"bpt": bpt, "scaffolds": pg.arrange(pcs, arr, painted)}
+                            yield {"input": inp, "map": mp, "prefix": "SUPER_", "via": pg.pick_via(inp, i)}
+
+
+def gap_run_inputs(tier):
+    """
+    The enumerated gap-run geometries.  One mapped scaffold of 2-3 contigs (7 and 12 bases: long enough for a break
+    one and two texels inside a contig at every texel size used) with
+      * every run of 2 gap rows from a set of gap kinds between the first two contigs (quick: 3 kinds, thorough: 7,
+        among them the 0-, 1- and 2-base gaps and the gap that equals the join gap), some runs of 3;
+      * the same with a third contig behind a single gap / abutting / behind a second run;
+      * runs of 1-2 gap rows in front of the first and/or behind the last contig, with and without a run in between;
+      * a second scaffold that is absent from the map and has runs of all three sorts.
+    Strand pattern and naming style rotate over the list.
+    """
+    quick = tier == "quick"
+    kinds = (C1, S3, C10) if quick else (C1, S3, C10, S200, C0, S1, C2)
+    specs = []  # (lens, runs, lead, trail)
+    for g1 in kinds:
+        for g2 in kinds:
+            specs.append(((7, 12), [(g1, g2)], (), ()))
+    triples = [(C1, C1, C1), (S3, C1, C10), (C10, S3, S3), (S200, C10, S200), (C0, S3, C0), (C1, C0, S3)]
+    for t in triples[: 2 if quick else 6]:
+        specs.append(((12, 7), [t], (), ()))
+    # 0/1/2-base gaps and the join-gap look-alike in a run (quick; thorough has them in `kinds`)
+    if quick:
+        for run in ((C0, S3), (S3, C0), (S200, C10), (C10, S200), (C2, S1)):
+            specs.append(((7, 12), [run], (), ()))
+    # a third contig
+    second = [(), (S3,), (C10, C1)] if quick else [(), (S3,), (C1,), (C10, C1), (S3, S200), (C0, C10)]
+    first = [(S3, C1), (C10, S3)] if quick else [(S3, C1), (C10, S3), (C1, C1), (S200, C10), (C0, S3), (C1, C10, S3)]
+    for r1 in first:
+        for r2 in second:
+            specs.append(((7, 7, 7), [r1, r2], (), ()))
+            if not quick:
+                specs.append(((12, 2, 7), [r2, r1], (), ()))
+    # terminal runs
+    terminal = [(S3,), (C1, S3), (C10, C1)] if quick else [(S3,), (C1,), (C0,), (C1, S3), (C10, C1), (S3, S200), (C0, C10), (C1, C1, C10)]
+    for t in terminal:
+        specs.append(((7, 12), [(C10,)], t, ()))
+        specs.append(((7, 12), [(C10,)], (), t))
+        specs.append(((12, 7), [()], t, tuple(reversed(t))))
+        specs.append(((7, 7), [(S3, C1)], t, t))
+        if not quick:
+            specs.append(((12,), [], t, ()))
+            specs.append(((12,), [], (), t))
+            specs.append(((12,), [], t, t))
+    inputs = []
+    for i, (lens, runs, lead, trail) in enumerate(specs):
+        k = len(lens)
+        sp = pg.strand_patterns(k)[i % (2 if k == 1 else 4)]
+        naming = ("own", "fasta", "offset")[i % 3]
+        inp = [gap_run_scaffold("scaffold_1", lens, sp, runs, lead, trail, naming, tag="1")]
+        if i % 4 == 3:
+            # a scaffold the map does not mention, with runs everywhere
+            inp.append(gap_run_scaffold("scaffold_2", (7, 2, 12), (1, -1, 1), [(C10, S3), (C1,)], (S3, C1), (C1, C10), "own", tag="2"))
+        inputs.append(inp)
+    return inputs
+
+
+def random_gap_run_inputs(rng, n):
+    """seeded: 1-3 scaffolds x 1-4 contigs, between two contigs 0-3 gap rows (mostly 2), terminal runs of 0-2 gap rows"""
+    lens = (1, 2, 7, 12, 40, 150)
+    for _ in range(n):
+        inp = []
+        for si in range(rng.choice((1, 1, 2, 3))):
+            k = rng.randint(1, 4)
+            lt = [rng.choice(lens) for _ in range(k)]
+            runs = [tuple(rng.choice(GAP_KINDS) for _ in range(rng.choice((0, 1, 2, 2, 2, 3)))) for _ in range(k - 1)]
+            lead = tuple(rng.choice(GAP_KINDS) for _ in range(rng.choice((0, 0, 0, 1, 2))))
+            trail = tuple(rng.choice(GAP_KINDS) for _ in range(rng.choice((0, 0, 0, 1, 2))))
+            sp = [rng.choice((1, -1)) for _ in range(k)]
+            inp.append(gap_run_scaffold(f"scaffold_{si + 1}", lt, sp, runs, lead, trail, rng.choice(("own", "fasta", "offset")), tag=str(si + 1)))
+        yield inp
+
+
 def drop_one_piece(case, rng):
     scs = [[list(p) for p in sc] for sc in case["map"]["scaffolds"]]
     flat = [(i, j) for i, sc in enumerate(scs) for j in range(len(sc))]
@@ -110,7 +306,11 @@ def run(tier, seed, **opts):
         "floor/ceil, sub-texel scaffolds absent, 70 % unpainted) judged on both sentences of the statement; the same "
         "maps with one piece dropped (class 'dropped-piece-map': on the texel grid but not producible by PretextView - "
         "still judged on the gap rule, which the code satisfies for every map) and seeded perturbed maps judged on "
-        "the first sentence only; non-trivial = distinct completed case whose outputs contain >= 1 junction"
+        "the first sentence only; this module's own gap-run families (runs of 2-3 consecutive gap rows between contigs, "
+        "1-2 gap rows in front of the first / behind the last contig, 0/1/2-base gaps, scaffolds absent from the map: "
+        "enumerated geometries x every set of <= 2 breaks on, one texel next to and inside every row of the scaffold, "
+        "plus seeded larger ones), a junction's gap rows judged together against the whole input run or one join gap; "
+        "non-trivial = distinct completed case whose outputs contain >= 1 junction"
     )
     quick = tier == "quick"
     stats = {"errors": 0, "junctions": 0}
@@ -143,10 +343,44 @@ def run(tier, seed, **opts):
         elif roll > 0.8:
             for pc, _ in pg.perturbations(case, rng, 1):
                 one(pc, "perturbed", False)
+    # runs of gap rows: enumerated geometries x every break set on / next to / inside the rows of the runs
+    run_inputs = gap_run_inputs(tier)
+    run_bpts = (1.0, 2.5) if quick else (1.0, 2.5, 10.0)
+    if quick:
+        # every geometry at 1 bp per texel (a break after every base), every other one also at 2.5
+        stream = gap_run_cases(run_inputs, lambda i: run_bpts[: 1 + i % 2], rng, max_cuts=2, k2_sample=6, k3_sample=1)
+    else:
+        stream = gap_run_cases(run_inputs, lambda i: run_bpts, rng, max_cuts=2, k2_sample=None, k3_sample=8)
+    for case in stream:
+        if col.full:
+            break
+        one(case, "gaprun")
+        roll = rng.random()
+        if pg.n_cut_pieces(case) >= 2 and roll < (0.15 if quick else 0.3):
+            one(drop_one_piece(case, rng), "gaprun-dropped", True, ("dropped-piece-map",))
+        elif roll > 0.95:
+            for pc, _ in pg.perturbations(case, rng, 1):
+                one(pc, "gaprun-perturbed", False)
+    # seeded larger inputs with runs of gap rows, scripts as for the shared stream
+    for inp in random_gap_run_inputs(rng, 500 if quick else 12000):
+        if col.full:
+            break
+        bpt = rng.choice((1.0, 2.5, 10.0, 33.3))
+        for mp, _ in pg.scripts_for(inp, bpt, rng, 2, painted_p=0.5):
+            stats["gr_i"] = stats.get("gr_i", 0) + 1
+            case = {"input": inp, "map": mp, "prefix": "SUPER_", "via": pg.pick_via(inp, stats["gr_i"])}
+            one(case, "gaprun-random")
+            if pg.n_cut_pieces(case) >= 2 and rng.random() < 0.3:
+                one(drop_one_piece(case, rng), "gaprun-dropped", True, ("dropped-piece-map",))
+    stats.pop("gr_i", None)
     return col.result(
         bounds=(
             "input: 1-3 scaffolds x 1-6 contigs, contig lengths from {1,2,7,12,40,150,400,1000}, gaps none/1/10/20/25/200 of "
             "types scaffold/contig, both strands, optional leading/trailing gap rows; texel sizes {1,2.5,10,33.3}; <= 3 cuts "
+            f"per scaffold; gap-run families: {len(run_inputs)} enumerated geometries of 1-3 contigs (7/12 bases) with runs of <= 3 gap "
+            f"rows from {{0,1,2,3,10,25,200}} bases between contigs and at the scaffold ends at texel sizes {list(run_bpts)}, every set of <= 2 breaks on/next to/inside the rows "
+            f"(2 pieces: {'6 seeded of the' if quick else 'all'} 16 arrangements, 3 pieces: {1 if quick else 8} seeded of 192), "
+            "seeded inputs of 1-3 scaffolds x 1-4 contigs (1-150 bases) with runs of 0-3 gap rows; <= 3 cuts "
             f"per scaffold; tiny scopes ({tiny_n} cases: {pg.describe_scopes(scopes)}) enumerated fully, the rest seeded; output junctions judged: "
             f"{stats['junctions']}; runs ending in an error (not judged): {stats['errors']}; per family: "
             + ", ".join(f"{k}={v}" for k, v in sorted(stats.items()) if k not in ("errors", "junctions"))
